@@ -1,5 +1,6 @@
 """C15 — Per-block price band: opening trades cannot push the price past the limit."""
-from .. import sym, guards, arms, model
+from .. import sym, guards, arms, model, norm
+from ..norm import N, match, hole, anyhole
 from ..sym import tag, payload, kids
 from .common import *
 
@@ -326,3 +327,96 @@ def run(ctx):
             ctx.inst("R15.5", "env-unchanged:%s" % short_fn(g), okc, g.where(),
                      "%d call(s) to the reference-snapshot selector; env argument %s" % (len(calls), "is the caller's own Env" if okc else
                         "is NOT the caller's unmodified Env: %s" % sym.show([a for a in calls[0][1].args if "Env" in sym.show(a, 1) or tag(a) == "rec"][0] if calls[0][1].args else 0, 5)))
+
+    # ---------------------------------------------------------------- R15.6
+    # the band itself: [p*(D - r)/D, p*(D + r)/D] around the reference snapshot's price p = quote*D/base with r the
+    # configured limit ratio; and the price the check compares with it: the current (q*D/b) and the post-trade
+    # ((q +/- x)*D/(b -/+ y)) price of the stored reserves
+    ctx.rule("R15.6", "band and compared prices: bounds p*(D -/+ r)/D around the reference snapshot's quote*D/base; current price q*D/b and post-trade price (q +/- x)*D/(b -/+ y) of the stored reserves", 3)
+
+    def cfgf(name):
+        return hole("cfg." + name, lambda v, name=name: guards.is_field_of_item(ix, v, VAMM, "margined_vamm:config", name))
+
+    def snapf(name):
+        def pred(v, name=name):
+            vi = ix.inline(v)
+            return tag(vi) == "field" and payload(vi)[0] == name and guards.loaded_item(ix, kids(vi)[0], VAMM) == "margined_vamm:reserve_snapshot"
+        return hole("snap." + name, pred)
+
+    def statef(name):
+        return hole("state." + name, lambda v, name=name: guards.is_field_of_item(ix, v, VAMM, "margined_vamm:state", name))
+    for f in cands:
+        bad = None
+        n_p = 0
+        P = ("div", ("mul", snapf("quote_asset_reserve"), cfgf("decimals")), snapf("base_asset_reserve"))
+        for p in ix.ok_paths(f):
+            r = sym.unwrap(p.ret)
+            up, lo = N(ix, sym.field(r, "0")), N(ix, sym.field(r, "1"))
+            n_p += 1
+            mu = match(("div", ("mul", P, ("add", cfgf("decimals"), cfgf("fluctuation_limit_ratio"))), cfgf("decimals")), up)
+            ml = match(("div", ("mul", P, ("sub", cfgf("decimals"), cfgf("fluctuation_limit_ratio"))), cfgf("decimals")), lo)
+            if mu is None:
+                bad = bad or "upper bound is %s" % norm.show(up)[:200]
+            elif ml is None:
+                bad = bad or "lower bound is %s" % norm.show(lo)[:200]
+            else:
+                # both bounds around the same snapshot
+                sq, sb = ix.inline(mu["snap.quote_asset_reserve"][1]), ix.inline(mu["snap.base_asset_reserve"][1])
+                lq, lb = ix.inline(ml["snap.quote_asset_reserve"][1]), ix.inline(ml["snap.base_asset_reserve"][1])
+                if not (kids(sq)[0] == kids(sb)[0] == kids(lq)[0] == kids(lb)[0]):
+                    bad = bad or "the bounds mix reserves of different snapshots"
+        ctx.inst("R15.6", "band-formula:%s" % short_fn(f), bad is None and n_p > 0, f.where(), bad or "%d paths: (p*(D+r)/D, p*(D-r)/D) with p = snapshot.quote*D/snapshot.base" % n_p)
+        # the compared prices, in every function that compares something with this function's result
+        for g in sorted(w.crate_fns(VAMM), key=lambda g: g.pretty):
+            if g.derived or "::_::" in g.pretty or g.kind == "Closure" or g.key == f.key:
+                continue
+            try:
+                oks = ix.ok_paths(g)
+            except Exception:
+                continue
+            cmp_l = []
+            for p in oks:
+                dirv = None
+                for (at, o, _b, _l) in p.conds:
+                    if tag(at) == "op" and payload(at)[0] == "eq" and o in (True, False):
+                        for k in kids(at):
+                            if tag(k) == "agg" and payload(k)[0].endswith("Direction") and not kids(k):
+                                dirv = payload(k)[1] if o else ("RemoveFromAmm" if payload(k)[1] == "AddToAmm" else "AddToAmm")
+                    if tag(at) == "op" and payload(at)[0] == "discr" and isinstance(o, tuple) and o[0] == "variant" and o[1] in ("AddToAmm", "RemoveFromAmm"):
+                        dirv = o[1]
+                for (at, o, _b, _l) in p.conds:
+                    if tag(at) == "op" and payload(at)[0] in ("gt", "lt", "ge", "le") and len(kids(at)) == 2:
+                        l_, r_ = kids(at)
+                        for (x, y) in ((l_, r_), (r_, l_)):
+                            yi = ix.inline(y)
+                            if tag(yi) == "field" and payload(yi)[0] in ("0", "1"):
+                                b0 = kids(yi)[0]
+                                while tag(b0) in ("unwrap", "ok"):
+                                    b0 = kids(b0)[0]
+                                if tag(b0) == "call" and ix.call_target(b0) is not None and ix.call_target(b0).key == f.key:
+                                    cmp_l.append((dirv, N(ix, x)))
+            if not cmp_l:
+                continue
+            badg = None
+            # a function only the IsOverFluctuationLimit query reaches simulates a SwapOutput of the asked direction, whose
+            # reserve update runs in the opposite direction (vAMM table of C02 R02.1: SwapOutput AddToAmm -> net position -)
+            flip = g.key in rb and g.key not in ra
+            cur = ("div", ("mul", statef("quote_asset_reserve"), cfgf("decimals")), statef("base_asset_reserve"))
+            kinds = set()
+            for (dirv, n_) in cmp_l:
+                if match(cur, n_) is not None:
+                    kinds.add("current")
+                    continue
+                add_p = ("div", ("mul", ("add", statef("quote_asset_reserve"), anyhole("x")), cfgf("decimals")), ("sub", statef("base_asset_reserve"), anyhole("y")))
+                rem_p = ("div", ("mul", ("sub", statef("quote_asset_reserve"), anyhole("x")), cfgf("decimals")), ("add", statef("base_asset_reserve"), anyhole("y")))
+                ma, mr = match(add_p, n_), match(rem_p, n_)
+                d_add, d_rem = ("RemoveFromAmm", "AddToAmm") if flip else ("AddToAmm", "RemoveFromAmm")
+                if ma is not None and dirv in (None, d_add):
+                    kinds.add("after:" + d_add)
+                elif mr is not None and dirv in (None, d_rem):
+                    kinds.add("after:" + d_rem)
+                else:
+                    badg = badg or "direction %s: compared price is %s" % (dirv, norm.show(n_)[:220])
+            if badg is None and not ({"after:AddToAmm", "after:RemoveFromAmm"} <= kinds):
+                badg = "post-trade prices compared: %s (both directions expected)" % sorted(kinds)
+            ctx.inst("R15.6", "compared-price:%s" % short_fn(g), badg is None, g.where(), badg or "compares %s with the band%s" % (sorted(kinds), " (SwapOutput convention)" if flip else ""))
